@@ -108,3 +108,23 @@ Proof.
   { destruct ss as [|s0 ss0]; [contradiction|]. rewrite <- (G (s0 :: ss0)). reflexivity. }
   rewrite E. rewrite <- !app_assoc. cbn [app]. now apply string_array_roundtrip.
 Qed.
+
+(* arrays of byte strings *)
+Theorem bytes_array_roundtrip b (bss : list (list N)) pre rest : bss <> [] -> Forall is_bytes bss ->
+  decode_bytes_array_at b pre (pre ++ array_open ++ join_lits (map (write_bytes b) bss) ++ 93 :: rest)
+  = Some (bss, 93 :: rest).
+Proof.
+  intros Hne Hok. unfold decode_bytes_array_at.
+  assert (Hp : forall p s, strip_prefix p (p ++ s) = Some s).
+  { induction p as [|c p IHp]; intros s; [reflexivity|]. cbn. rewrite N.eqb_refl. apply IHp. }
+  rewrite app_assoc. rewrite Hp.
+  apply decode_join with (ok := is_bytes); try assumption.
+  - intros x r Hx Hr. change (eng_lex_bytes b) with (lex_bytes b). now apply bytes_literal_roundtrip.
+  - assert (Hl : forall l : list (list N), (List.length l <= List.length (join_lits (map (write_bytes b) l)) + 1)%nat).
+    { induction l as [|x l IHl]; [cbn; lia|]. destruct l as [|y l]; [cbn; lia|].
+      change (map (write_bytes b) (x :: y :: l)) with (write_bytes b x :: map (write_bytes b) (y :: l)).
+      change (map (write_bytes b) (y :: l)) with (write_bytes b y :: map (write_bytes b) l) in *.
+      rewrite join_lits_cons, !app_length. change (List.length (K ",")) with 1%nat.
+      cbn [List.length] in IHl |- *. lia. }
+    rewrite app_length. specialize (Hl bss). lia.
+Qed.
